@@ -43,7 +43,7 @@ theorem refFrames_succ {cfg : Cfg} {t : TCfg} {fresh : Bytes} {n : Nat} {r : R} 
 
 /-- the reference does not depend on the scratch length / the cached transformation -/
 theorem refFrames_sim (cfg : Cfg) {t : TCfg} (ht : t.Ok) {b : Prop} (hb : b → t.SnapIndep) (fresh : Bytes) :
-    ∀ (n : Nat) (r r' : R), Sim b r r' → Inv t r → Inv t r' → refFrames cfg t fresh n r' = refFrames cfg t fresh n r := by
+    ∀ (n : Nat) (r r' : R), PSim b r r' → Inv t r → Inv t r' → refFrames cfg t fresh n r' = refFrames cfg t fresh n r := by
   intro n
   induction n with
   | zero => intro r r' _ _ _; rfl
@@ -130,7 +130,7 @@ def Open (r : R) (canvas : Bytes) (k : Nat) : Prop :=
 end
 
 theorem Closed.sim {cfg : Cfg} {t : TCfg} (ht : t.Ok) {b : Prop} (hb : b → t.SnapIndep) {fresh : Bytes} {ref : List Bytes}
-    {r r' : R} {k : Nat} (h : Sim b r r') (hI : Inv t r) (hI' : Inv t r') (hc : Closed cfg t fresh ref r k) :
+    {r r' : R} {k : Nat} (h : PSim b r r') (hI : Inv t r) (hI' : Inv t r') (hc : Closed cfg t fresh ref r k) :
     Closed cfg t fresh ref r' k := by
   obtain ⟨c1, c2, c3⟩ := hc
   refine ⟨by rw [h.sub]; exact c1, by rw [h.sub]; exact c2, ?_⟩
@@ -138,7 +138,7 @@ theorem Closed.sim {cfg : Cfg} {t : TCfg} (ht : t.Ok) {b : Prop} (hb : b → t.S
   exact c3
 
 theorem Open.sim {cfg : Cfg} {t : TCfg} (ht : t.Ok) {b : Prop} (hb : b → t.SnapIndep) {fresh : Bytes} {ref : List Bytes}
-    {r r' : R} {canvas : Bytes} {k : Nat} (h : Sim b r r') (hI : Inv t r) (hI' : Inv t r')
+    {r r' : R} {canvas : Bytes} {k : Nat} (h : PSim b r r') (hI : Inv t r) (hI' : Inv t r')
     (ho : Open cfg t fresh ref r canvas k) : Open cfg t fresh ref r' canvas k := by
   obtain ⟨o1, o2, rE, oi, B, hW, hB, hC⟩ := ho
   have hcaf' : r'.sub.caf = false := by rw [h.sub]; exact o1
